@@ -114,25 +114,27 @@ theorem falsy_values_exactly (v : PyVal) :
        v = .list 0 ∨ v = .tuple 0 ∨ v = .dict 0 ∨ v = .objBool false ∨ v = .objLen 0) :=
   PyVal.truthy_eq_false_iff v
 
-/-- **The loader's expression.**  `hidden = md.condition and not md.condition(obj)`, read by
+/-- **The loader's expression.**  `hidden = md.condition is not None and not md.condition(obj)`, read by
     `if not x.hidden` (`_load_tests`, `load_suites_from_classes`, `load_suites_from_files`,
-    `load_suites_from_directory`): for a condition that is a function, a lambda or any truthy callable
-    the item is kept iff the returned value is true — for every value. -/
-theorem loader_expression_is_truth_value (v : PyVal) : (Vis.cond true v).shown = v.truthy := by
-  rw [Vis.shown_eq_norm]; rfl
+    `load_suites_from_directory`): the item is kept iff the returned value is true — for every value and
+    every kind of callable (function, lambda, callable instance, callable instance that is itself a false
+    value). -/
+theorem loader_expression_is_truth_value (st : Bool) (v : PyVal) : (Vis.cond st v).shown = v.truthy := by
+  rw [Vis.shown_eq_visible]; rfl
 
-/-- … and in general it is `Vis.visible` of the normalised condition (a falsy callable is never
-    consulted, section 9); `@lcc.hidden()` hides, no condition shows. -/
-theorem loader_expression (vis : Vis) : vis.shown = (normVis vis).visible := Vis.shown_eq_norm vis
+/-- … and in general it is `Vis.visible`: `@lcc.hidden()` hides, no condition shows. -/
+theorem loader_expression (vis : Vis) : vis.shown = vis.visible := Vis.shown_eq_visible vis
 
-theorem loader_expression_agrees (vis : Vis) (h : vis.falsyCallable = false) : vis.shown = vis.visible := by
-  rw [Vis.shown_eq_norm, normVis_eq_self h]
+/-- **D36 (repaired).**  A condition callable that is itself a false value is consulted exactly like any
+    other: the item is shown iff the value it returns is true.  (Before the repair `md.condition and …`
+    short-circuited on the callable's own truth value and always showed the item.) -/
+theorem falsy_callable_condition_consulted (v : PyVal) :
+    (Vis.cond false v).shown = v.truthy ∧ (Vis.cond false v).shown = (Vis.cond true v).shown := by
+  simp only [Vis.shown_eq_visible]; exact ⟨rfl, rfl⟩
 
-/-- The attribute `.hidden` is `None` (no condition), `True` or `False` — never the condition's own
-    return value — except that a falsy callable is stored as it is. -/
-theorem hidden_attribute_shape (vis : Vis) :
-    vis.hiddenAttr = .none ∨ (∃ b, vis.hiddenAttr = .bool b) ∨
-      (vis.falsyCallable = true ∧ vis.hiddenAttr = .objBool false) := Vis.hiddenAttr_cases vis
+/-- The attribute `.hidden` is always a real boolean (`False` without condition) — never `None`, never
+    the condition's own return value, never the callable. -/
+theorem hidden_attribute_shape (vis : Vis) : vis.hiddenAttr = .bool (!vis.visible) := Vis.hiddenAttr_bool vis
 
 /-- **Test level.**  What the specification lists for a conditional test symbol … -/
 theorem conditional_test_listed_iff_truthy (d : TestDecl) (st : Bool) (v : PyVal) (hv : d.vis = .cond st v) :
@@ -411,14 +413,14 @@ example : [t "b" 1, t "a" 2, t "c" 5].Pairwise (fun a b => a.rank < b.rank) := b
 /-! ## 8. Known finding D18 (open): `__…`-named members of a suite *class* are silently not discovered
 
   The theorems above are about the dunder-free core `loadDir` / `loadFiles` / `loadFile` / `loadClass`.
-  The real entry points are `load…Real = core ∘ strip… ∘ norm…` (`norm…`: section 9): `get_object_attributes` drops every attribute
+  The real entry points are `load…Real = core ∘ strip…`: `get_object_attributes` drops every attribute
   of a class instance whose name starts with `__` before the loader looks for test methods and
   nested suite classes (module-level names are not filtered).
 
   FULL-STRENGTH STATEMENT (what the property demands; *refuted* by the code as it is):
       ∀ d ss, loadDirReal d = .ok ss → Suite.entriesList ss = declDir d
   Below: the refutation with a concrete witness, and the `_partial` theorems under the exact
-  decidable guards (`noDunder…` here, `noFalsy…` of section 9) that exclude the witness classes. -/
+  decidable guard `noDunder…` that excludes the witness class. -/
 
 /-- Witness: `m.py` with class `K` { `__dunder__`, `normal` } — both `@lcc.test`, both visible. -/
 def dunderWitness : Dir :=
@@ -440,73 +442,64 @@ theorem dunder_member_refutes_exactness :
     exact absurd hp (by decide)
 
 /-- `load_suites_from_directory`, real entry point, **partial**: exact on every layout in which no
-    suite class has a member named `__…` and no `visible_if` condition is a falsy callable (section 9).
-    Missing for full strength: exactly these two guards. -/
-theorem load_directory_exact_partial (d : Dir) (ss : List Suite) (hnd : noDunderDir d = true) (hnf : noFalsyDir d = true)
+    suite class has a member named `__…` (falsy condition callables included: D36 is repaired, section 9).
+    Missing for full strength: exactly that guard. -/
+theorem load_directory_exact_partial (d : Dir) (ss : List Suite) (hnd : noDunderDir d = true)
     (h : loadDirReal d = .ok ss) : Suite.entriesList ss = declDir d := by
   unfold loadDirReal at h
-  rw [normDir_eq_self d hnf, stripDir_eq_self d hnd] at h
+  rw [stripDir_eq_self d hnd] at h
   exact load_directory_exact d ss h
 
 theorem load_files_exact_partial (mods : List Module) (ss : List Suite) (hnd : noDunderModules mods = true)
-    (hnf : noFalsyModules mods = true) (h : loadFilesReal mods = .ok ss) : Suite.entriesList ss = declFiles mods := by
+    (h : loadFilesReal mods = .ok ss) : Suite.entriesList ss = declFiles mods := by
   unfold loadFilesReal at h
-  rw [normModules_eq_self mods hnf, stripModules_eq_self mods hnd] at h
+  rw [stripModules_eq_self mods hnd] at h
   exact load_files_exact mods ss h
 
-theorem load_class_exact_partial (c : Cls) (s : Suite) (hnd : noDunderCls c = true) (hnf : noFalsyCls c = true)
+theorem load_class_exact_partial (c : Cls) (s : Suite) (hnd : noDunderCls c = true)
     (h : loadClassReal c = .ok s) :
     s.head = clsSuiteHead c.head ∧ s.tests = declTests c.tests ∧ s.body = declClsBody c := by
   unfold loadClassReal at h
-  rw [normCls_eq_self c hnf, stripCls_eq_self c hnd] at h
+  rw [stripCls_eq_self c hnd] at h
   exact load_class_exact c s h
 
-/-- Whatever the names and conditions, the real entry point loads exactly what the *stripped,
-    normalised* layout declares (so nothing but `__…`-named class members is lost and nothing but items
-    behind a falsy condition callable is shown in excess), and never accepts a duplicate. -/
+/-- Whatever the names, the real entry point loads exactly what the *stripped* layout declares
+    (so nothing but `__…`-named class members is lost), and never accepts a duplicate. -/
 theorem load_directory_real_exact_on_stripped (d : Dir) (ss : List Suite) (h : loadDirReal d = .ok ss) :
-    Suite.entriesList ss = declDir (stripDir (normDir d)) ∧ ∀ s ∈ ss, s.Unique :=
-  ⟨load_directory_exact (stripDir (normDir d)) ss h, loaded_tree_unique (stripDir (normDir d)) ss h⟩
+    Suite.entriesList ss = declDir (stripDir d) ∧ ∀ s ∈ ss, s.Unique :=
+  ⟨load_directory_exact (stripDir d) ss h, loaded_tree_unique (stripDir d) ss h⟩
 
-/-- The guards are satisfiable by the non-trivial example layout. -/
+/-- The guard is satisfiable by the non-trivial example layout. -/
 example : noDunderDir exDir = true := by decide
-example : noFalsyDir exDir = true := by decide
 example : noDunderDir dunderWitness = false := by decide
 
-/-! ## 9. Known finding D36 (open): a `visible_if` condition that is itself a false value is never consulted
+/-! ## 9. Finding D36 (repaired): a `visible_if` condition that is itself a false value
 
-  `hidden = md.condition and not md.condition(obj)` tests the truth value of the *callable* first.  A
-  callable instance whose class defines `__bool__` / `__len__` (a callable subclass of `list` holding
-  the enabled features, say) can be false; then the expression short-circuits to the callable itself,
-  `.hidden` is a false value, and the item is shown although `condition(obj)` returns a false value.
-  (`loader_expression`: the code's expression is `Vis.visible ∘ normVis`.)
+  Before the repair `hidden = md.condition and not md.condition(obj)` tested the truth value of the
+  *callable* first: a callable instance whose class defines `__bool__` / `__len__` and is false was never
+  called, and the item was shown although `condition(obj)` returned a false value.  The repaired code
+  tests `md.condition is not None`; the model follows (`Vis.hiddenAttr`), `loader_expression` and
+  `falsy_callable_condition_consulted` hold for every callable, and the exactness theorems need no guard
+  for this input class.  The former witness stays as a positive example (and as corpus case
+  `WITNESS_D36` of the stream). -/
 
-  FULL-STRENGTH STATEMENT (refuted by the code as it is), for layouts without `__…` members:
-      ∀ d ss, noDunderDir d → loadDirReal d = .ok ss → Suite.entriesList ss = declDir d -/
-
-/-- Witness: `m.py` with a test `gated` under `@lcc.visible_if(c)`, `c` a falsy callable returning `False`. -/
+/-- Former witness: `m.py` with a test `gated` under `@lcc.visible_if(c)`, `c` a falsy callable returning `False`. -/
 def falsyCondWitness : Dir :=
   .mk "suites" [{ stem := "m", autoRank := 3,
                   tests := [{ t "gated" 1 with vis := .cond false (.bool false) }, t "normal" 2] }] []
 
-/-- **Refutation**: a conditionally invisible test is loaded. -/
-theorem falsy_condition_callable_refutes_exactness :
-    ¬ ∀ (d : Dir) (ss : List Suite), noDunderDir d = true → loadDirReal d = .ok ss → Suite.entriesList ss = declDir d := by
-  intro H
-  have hp : paths (loadDirReal falsyCondWitness) = some [["m", "gated"], ["m", "normal"]] := by decide
-  have hd : (declDir falsyCondWitness).map (·.1) = [["m", "normal"]] := by decide
-  cases h : loadDirReal falsyCondWitness with
-  | error e => rw [h] at hp; cases hp
-  | ok ss =>
-    have := H falsyCondWitness ss (by decide) h
-    rw [h] at hp
-    simp only [paths, this, hd] at hp
-    exact absurd hp (by decide)
+/-- The conditionally invisible test is omitted, by the loader and by the specification alike. -/
+example : paths (loadDirReal falsyCondWitness) = some [["m", "normal"]] := by decide
+example : (declDir falsyCondWitness).map (·.1) = [["m", "normal"]] := by decide
 
-/-- The witness class is exactly what the guard excludes; with a truthy callable the same layout is exact. -/
-example : noFalsyDir falsyCondWitness = false := by decide
+/-- With a falsy callable returning a true value the test is shown. -/
 example : paths (loadDirReal (.mk "suites"
-    [{ stem := "m", autoRank := 3, tests := [{ t "gated" 1 with vis := .cond true (.bool false) }, t "normal" 2] }] []))
-    = some [["m", "normal"]] := by decide
+    [{ stem := "m", autoRank := 3, tests := [{ t "gated" 1 with vis := .cond false (.str "0") }, t "normal" 2] }] []))
+    = some [["m", "gated"], ["m", "normal"]] := by decide
+
+/-- Exactness on the former witness class, as an instance of the main theorem (no guard needed). -/
+theorem falsy_condition_callable_exact (ss : List Suite) (h : loadDirReal falsyCondWitness = .ok ss) :
+    Suite.entriesList ss = declDir falsyCondWitness :=
+  load_directory_exact_partial falsyCondWitness ss (by decide) h
 
 end LccModel.C13
